@@ -42,6 +42,8 @@ Ops(shape) ==
   \* (torch.linalg.solve reads a right-hand side of shape batch x n as a batch of vectors)
   \cup (IF sq THEN { <<"solve", s>> : s \in {x \in AllShapes : ~T_MatMulOk(shape, x) /\ x # b \o <<n>>} }
                \cup { <<"add_diagonal", s>> : s \in {x \in Shapes1 \cup Shapes2 : ~T_BCompat(b \o <<n>>, x)} }
+               \* quadratic forms / solves with a wrong number of rows, among them multiples and divisors of n (which a reshape would swallow)
+               \cup { <<a, b \o <<r, 2>>>> : a \in {"inv_quad", "inv_quad_logdet", "solve"}, r \in {2 * n, n + 1, n \div 2, 1} \ {n} }
         ELSE { <<"solve", <<n, 1>>>>, <<"logdet", <<>>>>, <<"inv_quad", <<m, 1>>>>, <<"add_diagonal", <<1>>>>, <<"cholesky", <<>>>>,
                <<"root_decomposition", <<>>>> })
   \* "+" / "-" with another OPERATOR whose matrix size does not broadcast: <<class code, size>>, codes 1 ConstantDiag, 2 Identity, 3 Diag, 4 Dense, 5 Zero;
